@@ -2,7 +2,7 @@
 # For every "fixed:" entry: revert that commit in /repo's working tree (no commit), run the quick check of the property,
 # expect a VIOLATION, restore.  Writes seeded/REVERTS.md.  /repo must be clean.
 cd /verif
-OUT=seeded/REVERTS.md
+OUT=/verif/seeded/REVERTS.md
 echo "# Reverting each fix: commit (working tree only) vs. the quick check of its property ($(date -u +%F), /repo $(git -C /repo rev-parse --short HEAD))" > $OUT
 echo "" >> $OUT; echo "| fix commit | property | result |" >> $OUT; echo "|---|---|---|" >> $OUT
 /venv/bin/python - <<'PY' > /tmp/fixed_list.txt
